@@ -1,6 +1,7 @@
 import P2PVerif.Model.Checked
 import P2PVerif.Model.Reasm
 import P2PVerif.Lemmas.Checked
+import P2PVerif.Props.C10
 /-! # C08 — no bytes from the network can crash a node
 Property theorems only. `Model/Checked.lean` re-writes the packet-facing entry points with Go's checked slice
 and index expressions (`Except Fault`); the theorems say that for EVERY input — and, for the stateful
@@ -10,7 +11,7 @@ properties are proved about and the correspondence streams compare with the code
 the repository (encoding/asn1, protobuf, flynn/noise, quic-go, x/crypto/ssh) are not modelled: they are fuzzed
 through the correspondence streams only. -/
 namespace P2PVerif.C08
-open P2PVerif P2PVerif.Checked
+open P2PVerif P2PVerif.Checked P2PVerif.Src P2PVerif.Go P2PVerif.SrcKad P2PVerif.SrcFrag P2PVerif.SrcMbapp P2PVerif.SrcMux
 
 /-- ⊢ the string and varint demultiplexers never fault, whatever the frame (including length fields ≥ 2^63). -/
 theorem demux_no_fault (x : Bytes) :
@@ -57,5 +58,75 @@ theorem rejected_input_is_noop (st : Frag.RState) (src : Nat) (pkt : Bytes) (cfg
 -- non-vacuity: the inputs that crashed the unrepaired code
 example : stringDemux ([255,255,255,255,255,255,255,255,255,1] ++ [7]) = .ok .err := by decide
 example : (aggAddPart [none, none] 5 9 [1]) = .ok none := by decide
+
+/-! ### about the definitions regenerated from the Go source (`Gen/Src.lean`): no input makes them fault -/
+
+/-- ⊢ (source) the packet parsers of fragswarm, mbapp and p2pke return (a value or an error) on every byte string -/
+theorem src_parsers_no_fault (x : Go.Bytes) :
+    (∃ r, fragswarm.parseMessage x = .ok r) ∧ (∃ r, mbapp.ParseMessage x = .ok r) ∧ (∃ r, p2pke.ParseMessage x = .ok r) := by
+  refine ⟨?_, ?_, ?_⟩
+  · rw [parseMessage_eq]; cases parseK (nb x) with
+    | none => exact ⟨_, rfl⟩
+    | some r => obtain ⟨a, b, c, d⟩ := r; exact ⟨_, rfl⟩
+  · unfold mbapp.ParseMessage
+    by_cases h : Go.len x < 24
+    · simp [h]
+    · have h24 : 24 ≤ x.length := by simp only [Go.len] at h; omega
+      simp only [decide_eq_true_eq, h, if_false]
+      have e1 : Go.slice x 0 24 = .ok (x.take 24) := Go.slice_to x 24 h24
+      have e2 : Go.slice x 24 (Go.len x) = .ok (x.drop 24) := Go.slice_from x 24 h24
+      rw [e1, e2]
+      exact ⟨_, rfl⟩
+  · unfold p2pke.ParseMessage
+    by_cases h : Go.len x < 4 <;> simp [h]
+
+/-- ⊢ (source) the five demultiplexers return on every frame (string: frames shorter than 2^63 bytes, as every Go
+    slice is) -/
+theorem src_demux_no_fault (x : Go.Bytes) (hx : x.length < 2 ^ 63) :
+    (∃ r, p2pmux.uint16DemuxFunc x = .ok r) ∧ (∃ r, p2pmux.uint32DemuxFunc x = .ok r) ∧
+    (∃ r, p2pmux.uint64DemuxFunc x = .ok r) ∧ (∃ r, p2pmux.varintDemuxFunc x = .ok r) ∧
+    (∃ r, p2pmux.stringDemuxFunc x = .ok r) := by
+  refine ⟨?_, ?_, ?_, ?_, ?_⟩
+  · match x with
+    | [] => exact ⟨_, u16Demux_short _ (by simp)⟩
+    | [_] => exact ⟨_, u16Demux_short _ (by simp)⟩
+    | b0 :: b1 :: rest => exact ⟨_, u16Demux_ok b0 b1 rest⟩
+  · match x with
+    | [] => exact ⟨_, u32Demux_short _ (by simp)⟩
+    | [_] => exact ⟨_, u32Demux_short _ (by simp)⟩
+    | [_, _] => exact ⟨_, u32Demux_short _ (by simp)⟩
+    | [_, _, _] => exact ⟨_, u32Demux_short _ (by simp)⟩
+    | b0 :: b1 :: b2 :: b3 :: rest => exact ⟨_, u32Demux_ok b0 b1 b2 b3 rest⟩
+  · match x with
+    | [] => exact ⟨_, u64Demux_short _ (by simp)⟩
+    | [_] => exact ⟨_, u64Demux_short _ (by simp)⟩
+    | [_, _] => exact ⟨_, u64Demux_short _ (by simp)⟩
+    | [_, _, _] => exact ⟨_, u64Demux_short _ (by simp)⟩
+    | [_, _, _, _] => exact ⟨_, u64Demux_short _ (by simp)⟩
+    | [_, _, _, _, _] => exact ⟨_, u64Demux_short _ (by simp)⟩
+    | [_, _, _, _, _, _] => exact ⟨_, u64Demux_short _ (by simp)⟩
+    | [_, _, _, _, _, _, _] => exact ⟨_, u64Demux_short _ (by simp)⟩
+    | b0 :: b1 :: b2 :: b3 :: b4 :: b5 :: b6 :: b7 :: rest => exact ⟨_, u64Demux_ok b0 b1 b2 b3 b4 b5 b6 b7 rest⟩
+  · rw [varintDemux_model]; cases Varint.get (nb x) <;> exact ⟨_, rfl⟩
+  · rw [stringDemux_model x hx]
+    cases Varint.get (nb x) with
+    | ok l n => simp only; split <;> exact ⟨_, rfl⟩
+    | short => exact ⟨_, rfl⟩
+    | overflow i => exact ⟨_, rfl⟩
+
+/-- ⊢ (source) the distance functions return on every triple of keys, of any lengths -/
+theorem src_distance_no_fault (x a b : Go.Bytes) :
+    (∃ r, kademlia.DistanceCmp x a b = .ok r) ∧ (∃ r, kademlia.DistanceLt x a b = .ok r) ∧
+    (∃ r, kademlia.Distance a b = .ok r) ∧ (∃ r, kademlia.DistanceLz a b = .ok r) ∧
+    (∃ r, kademlia.LeadingZeros x = .ok r) ∧ (∃ r, kademlia.Cache.bucketIndex x a = .ok r) :=
+  ⟨⟨_, DistanceCmp_eq x a b⟩, ⟨_, DistanceLt_eq x a b⟩, ⟨_, Distance_eq a b⟩, ⟨_, DistanceLz_eq a b⟩,
+   ⟨_, LeadingZeros_eq x⟩, ⟨_, bucketIndex_eq x a⟩⟩
+
+/-- ⊢ (source) mbapp's collector never faults, whatever parts arrive in whatever order for whatever announced part
+    count and total size (defect 4 of DESIGN.md section 7 was a fault here) -/
+theorem src_collector_no_fault (pc ts : Nat) (ops : List (Nat × Go.Bytes)) :
+    ∃ c, (mbapp.newCollector (pc : Int) (ts : Int) >>= fun c0 => C10.srcAddParts c0 ops) = .ok c :=
+  let ⟨c, h, _⟩ := C10.src_collector_refines pc ts ops
+  ⟨c, h⟩
 
 end P2PVerif.C08
